@@ -4,7 +4,7 @@ import numpy as np
 import vlib
 
 CLAIM = {
- "text": "Proof (Lean 4): the bookkeeping schemes the ansaetze use to update variational gates in place are modelled as small state machines over an abstract generator output (ordered list of (Pauli word, coefficient)): word -> gate-index table with rebuild when the key set changes (UCCSD, QCC), per-layer tables with cumulative offsets (UpCCGSD), positional update (HEA, RUCC, VariationalCircuit, VSQS blocks). Proved: starting from any parameter list, the parameter vector of the variational gates after an update equals the one of a fresh build with that generator output, and by induction over the history (theorem history_eq_build) after ANY sequence of updates it equals the fresh build with the LAST output, provided equal key sets list their words in the same order (explicit, satisfiable hypothesis, checked on every generated pair); cumulative offsets are proved to address disjoint consecutive blocks for every number of layers (the non-cumulative offsets the code used before the repair are proved wrong by a 3-layer counterexample); the angle rule 2c / 4pi+2c is shared with C06; all-zero parameters: every Pauli-word exponential block emitted with coefficient 0 is proved to act as the identity (both branches of the angle rule), hence a reference preparation followed by any number of such blocks prepares exactly the reference state (theorem all_zero_parameters_reference, corollary of the general Pauli-word theorem of C06). The generators themselves (openfermion excitation generators, QCC/ILC screening) are NOT modelled. Tie to the code and oracle: for every built-in ansatz, encoding and ordering the harness replays parameter histories (exact zeros, sign changes, repeats, values beyond 2pi, wrong lengths) and compares the state prepared by the updated circuit with a freshly built one (cirq, overlap 1 - 1e-9), the accepted number of parameters, and the reference state at all-zero parameters.",
+ "text": "Proof (Lean 4): the bookkeeping schemes the ansaetze use to update variational gates in place are modelled as small state machines over an abstract generator output (ordered list of (Pauli word, coefficient)): word -> gate-index table with rebuild when the key set changes (UCCSD, QCC), per-layer tables with cumulative offsets (UpCCGSD), positional update (HEA, RUCC, VariationalCircuit, VSQS blocks). Proved: starting from any parameter list, the parameter vector of the variational gates after an update equals the one of a fresh build with that generator output, and by induction over the history (theorem history_eq_build) after ANY sequence of updates it equals the fresh build with the LAST output, provided equal key sets list their words in the same order (explicit, satisfiable hypothesis, checked on every generated pair); cumulative offsets are proved to address disjoint consecutive blocks for every number of layers (the non-cumulative offsets the code used before the repair are proved wrong by a 3-layer counterexample); the angle rule 2c / 4pi+2c is shared with C06; all-zero parameters: every Pauli-word exponential block emitted with coefficient 0 is proved to act as the identity (both branches of the angle rule), hence a reference preparation followed by any number of such blocks prepares exactly the reference state (theorem all_zero_parameters_reference, corollary of the general Pauli-word theorem of C06). The ansatz object itself (recorded vector + circuit) under histories of set_var_params and update_var_params is a two-field state machine: if the in-place write turns the circuit of any vector into the circuit of the new one, then after ANY sequence of sets and updates the circuit is the fresh build of the last update's vector (run_circ_eq_build, run_update_last); the shortcut 'skip the update when the vector equals the recorded one' is refuted by a two-call history (skip_shortcut_counterexample). The model's answer (which vector the circuit holds) is asked from the driver for every step of every replayed history. The generators themselves (openfermion excitation generators, QCC/ILC screening) are NOT modelled. Tie to the code and oracle: for every built-in ansatz, encoding and ordering the harness replays parameter histories (exact zeros, sign changes, repeats, values beyond 2pi, wrong lengths; vectors given as list, array, the ansatz' own array written in place, after set_var_params of the same or of another vector) and compares the state prepared by the updated circuit with a freshly built one (cirq, overlap 1 - 1e-9), the accepted number of parameters, and the reference state at all-zero parameters.",
  "note": "Trusted: Lean kernel + standard axioms; cirq simulator; PySCF molecules; openfermion generators.",
  "technique": "Lean 4 invariant proofs over update histories for the bookkeeping state machines + history oracle (updated vs rebuilt state) on the real ansaetze"}
 
@@ -96,7 +96,7 @@ def history_case(ctx, rng, kind, molname, cfg):
     for st in styles:
         hist.append(list(hist[-1]) if st == "repeat" and hist else rand_vec(rng, n, st))
     case["history"] = hist
-    hows = ["build"] + [rng.choice(["list", "list", "array", "own", "set-then-update"]) for _ in hist[1:]]
+    hows = ["build"] + [rng.choice(["list", "list", "array", "own", "set-then-update", "set-other-then-update"]) for _ in hist[1:]]
     case["hows"] = hows
     ctx.count(f"hist:{kind}")
     ctx.case({k: v for k, v in case.items() if k != "history"} | {"styles": styles}, nontrivial=len(hist) >= 3, sample=False)
@@ -124,6 +124,10 @@ def history_case(ctx, rng, kind, molname, cfg):
                     ans.set_var_params(list(theta))
                     ans.update_var_params(list(theta))
                     ctx.count("update:set-then-update")
+                elif how == "set-other-then-update" and hasattr(ans, "set_var_params"):
+                    ans.set_var_params(rand_vec(rng, n, "rand"))
+                    ans.update_var_params(list(theta))
+                    ctx.count("update:set-other-then-update")
                 elif how == "array":
                     ans.update_var_params(np.array(theta))
                 else:
@@ -133,6 +137,15 @@ def history_case(ctx, rng, kind, molname, cfg):
             ctx.violation(f"{kind} on {molname} {cfg}: step {step} ({'build' if step == 0 else 'update'}) raised {type(e).__name__}: {str(e)[:80]}",
                           {**case, "history": hist[:step + 1]}, known_id=kid)
             return kid is not None
+        # the object model (Obj.run; run_circ_eq_build): label of the vector the circuit must hold after the calls so far
+        calls = []
+        for i in range(1, step + 1):
+            calls += ([["set", i], ["update", i]] if hows[i] == "set-then-update" else
+                      [["set", len(hist) + i], ["update", i]] if hows[i] == "set-other-then-update" else [["update", i]])
+        mj = ctx.model.ask({"op": "ansatz_calls", "calls": calls})
+        if "circ" in mj and mj["circ"] != step:
+            ctx.mismatch(f"object model: after {calls} the circuit holds vector {mj['circ']}, the harness expects {step}", {**case, "history": hist[:step + 1]})
+            return False
         try:
             fresh = make(kind, molname, cfg)
             fresh.build_circuit(theta)
